@@ -36,21 +36,73 @@ def make_spec(rng, **kw):
     return spec
 
 
+QUARTET = ["father", "mother", "child", "child2"]
+
+
+def make_stacked_spec(rng, k, counts, family="trio", many=0, nstack=None):
+    """Few reads per member, all stacked on the same 2-3 adjacent variants (coverage there = number of reads).
+    counts: reads per family member (list, one entry per member; family 'single' has one member);
+    many: members whose entry in counts is None get `many` ordinary reads spread over the chromosome instead."""
+    spec = make_spec(rng, trio=(family != "single"), k=k, nvars=rng.randint(5, 8), depth_reads=many, paired_fraction=0.0,
+                     het_fraction=1.0, tag="PS", genetic=rng.random() < 0.5, phased_input=False, nchrom=1,
+                     low_cov_gaps=False, min_gap=25, len_range=[60, 200])
+    spec["family"] = family
+    spec["kinds"] = ["snv"]
+    spec["stacked"] = {"counts": list(counts), "nstack": nstack or rng.choice([2, 3])}
+    return spec
+
+
+def stacked_reads(rng, sc, sample, chrom, n, first, nstack, prefix):
+    """n error-free reads of `sample`, each covering exactly the variants first..first+nstack-1 of `chrom`."""
+    vs = sc.variants[chrom]
+    ref = sc.ref[chrom]
+    lo = vs[first].pos
+    hi = vs[first + nstack - 1].pos + len(vs[first + nstack - 1].ref)
+    reads = []
+    for i in range(n):
+        h = rng.randint(0, 1)
+        alleles = [x[h] for x in sc.haps[sample][chrom]]
+        s = max(0, lo - rng.randint(6, 12))
+        e = min(len(ref) - 1, hi + rng.randint(6, 12))
+        seq, cig = synth.hap_walk(ref, vs, alleles, s, e)
+        reads.append(dict(name=f"{prefix}{i}", sample=sample, chrom=chrom, start=s, cigar=cig, seq=seq, qual=30, hap=h, flag=0))
+    return reads
+
+
+def family_samples(spec):
+    fam = spec.get("family")
+    if fam == "quartet":
+        return QUARTET
+    if fam == "single":
+        return ["S1"]
+    return TRIO if spec["trio"] else ["S1"]
+
+
 def build_inputs(spec, wd):
     rng = random.Random(spec["seed"])
-    samples = TRIO if spec["trio"] else ["S1"]
+    samples = family_samples(spec)
     sc = synth.make_scenario(rng, nchrom=spec["nchrom"], nsamples=len(samples), nvars=spec["nvars"],
                              sample_names=samples, het_fraction=spec["het_fraction"], min_gap=spec["min_gap"],
-                             kinds=("snv", "snv", "ins", "del", "mnp"))
+                             kinds=tuple(spec.get("kinds") or ("snv", "snv", "ins", "del", "mnp")))
     if spec["trio"]:
         for c in sc.chroms:
             child, _ = synth.inherit(rng, sc.haps["father"][c], sc.haps["mother"][c], recomb_prob=0.0)
             sc.haps["child"][c] = child
+            if "child2" in samples:
+                child2, _ = synth.inherit(rng, sc.haps["father"][c], sc.haps["mother"][c], recomb_prob=0.0)
+                sc.haps["child2"][c] = child2
     ref = synth.write_fasta(sc, os.path.join(wd, "ref.fa"))
     vcf = synth.write_vcf(sc, os.path.join(wd, "in.vcf"))
     reads = []
-    for s in samples:
+    stacked = spec.get("stacked")
+    for si, s in enumerate(samples):
         for c in sc.chroms:
+            if stacked and stacked["counts"][si] is not None:
+                nv = len(sc.variants[c])
+                nst = min(stacked["nstack"], nv)
+                first = max(0, (nv - nst) // 2)
+                reads += stacked_reads(rng, sc, s, c, stacked["counts"][si], first, nst, f"{s}_{c}_st")
+                continue
             rs = synth.simulate_reads(rng, sc, s, c, spec["depth_reads"], len_range=tuple(spec["len_range"]),
                                       paired_fraction=spec["paired_fraction"])
             if spec["low_cov_gaps"]:
@@ -77,11 +129,14 @@ def build_inputs(spec, wd):
         extra_inputs.append(synth.write_vcf(sc, os.path.join(wd, "phased.vcf"), phased=phased))
     ped = None
     if spec["trio"]:
-        ped = synth.write_ped(os.path.join(wd, "trio.ped"), [("child", "father", "mother")])
+        trios = [("child", "father", "mother")]
+        if "child2" in samples:
+            trios.append(("child2", "father", "mother"))
+        ped = synth.write_ped(os.path.join(wd, "trio.ped"), trios)
     return sc, ref, vcf, bam, extra_inputs, ped
 
 
-def run_phase(ctx, spec, wd):
+def run_phase(ctx, spec, wd, timeout=600):
     """Returns dict(rc, stderr, args, trace=[records], calls, readlist, sc)."""
     os.makedirs(wd, exist_ok=True)
     sc, ref, vcf, bam, extra_inputs, ped = build_inputs(spec, wd)
@@ -100,7 +155,7 @@ def run_phase(ctx, spec, wd):
     if spec["distrust"]:
         args += ["--distrust-genotypes"]
     args += [vcf, bam] + extra_inputs
-    rc, so, se = run_cli(ctx, args, cwd=wd, env_extra={"WHATSHAP_VERIF_TRACE": trace})
+    rc, so, se = run_cli(ctx, args, cwd=wd, env_extra={"WHATSHAP_VERIF_TRACE": trace}, timeout=timeout)
     res = {"rc": rc, "stderr": se, "args": [str(a) for a in args], "trace": [], "calls": {}, "readlist": [], "sc": sc}
     if rc != 0:
         return res
